@@ -40,7 +40,7 @@ CmpHolds(op, m, v) ==
 
 B(b) == IF b THEN "T" ELSE "F"
 
-RECURSIVE RefQuery(_, _), RefPair(_, _, _, _), RefOp(_, _, _, _), RefExprs(_, _, _)
+RECURSIVE RefQueryX(_, _, _), RefPair(_, _, _, _, _), RefOp(_, _, _, _), RefExprs(_, _, _)
 
 (* one operator on a path; well-formed operands assumed (core domain, clause 3) *)
 RefOp(doc, op, p, v) ==
@@ -74,27 +74,31 @@ RefOp(doc, op, p, v) ==
             B(v.f # <<>> /\ AnyM(ends, LAMBDA m : m.t = "arr" /\
                 \E i \in 1..Len(m.a) :
                    LET item == Doc(<< <<"item", m.a[i]>> >>) IN
-                   \A j \in 1..Len(v.f) : RefPair(item, <<"item">>, v.f[j], FALSE) = "T"))
+                   \A j \in 1..Len(v.f) : RefPair(item, <<"item">>, v.f[j], FALSE, FALSE) = "T"))
 
 (* conjunction of operator expressions on one path *)
 RefExprs(doc, p, exps) ==
   B(\A i \in 1..Len(exps) : RefOp(doc, exps[i][1], p, exps[i][2]) = "T")
 
-RefPair(doc, prefix, pair, root) ==
+RefPair(doc, prefix, pair, root, kf) ==
   LET key == pair[1]  val == pair[2] IN
   IF IsOp(key) THEN
      IF root THEN
-        CASE key = "$and" -> B(\A i \in 1..Len(val.a) : RefQuery(doc, val.a[i]) = "T")
-          [] key = "$or"  -> B(\E i \in 1..Len(val.a) : RefQuery(doc, val.a[i]) = "T")
-          [] key = "$nor" -> B(~\E i \in 1..Len(val.a) : RefQuery(doc, val.a[i]) = "T")
+        CASE key = "$jsonSchema" -> B(ValidX(val, doc, kf))
+          [] key = "$and" -> B(\A i \in 1..Len(val.a) : RefQueryX(doc, val.a[i], kf) = "T")
+          [] key = "$or"  -> B(\E i \in 1..Len(val.a) : RefQueryX(doc, val.a[i], kf) = "T")
+          [] key = "$nor" -> B(~\E i \in 1..Len(val.a) : RefQueryX(doc, val.a[i], kf) = "T")
      ELSE RefOp(doc, key, prefix, val)
   ELSE LET p == prefix \o PathOf(key) IN
        IF val.t = "doc" /\ val.f # <<>> /\ IsOp(val.f[1][1]) THEN RefExprs(doc, p, val.f)
        ELSE RefOp(doc, "$eq", p, val)
 
-RefQuery(doc, q) == B(\A i \in 1..Len(q.f) : RefPair(doc, <<>>, q.f[i], TRUE) = "T")
+RefQueryX(doc, q, kf) == B(\A i \in 1..Len(q.f) : RefPair(doc, <<>>, q.f[i], TRUE, kf) = "T")
+RefQuery(doc, q) == RefQueryX(doc, q, FALSE)
 
 MatchRef(doc, query) == RefQuery(doc, query)
+(* the reference semantics with known finding KF-C10-2 (Schema.tla) switched on: used to recognise that finding only *)
+MatchRefKF(doc, query) == RefQueryX(doc, query, TRUE)
 
 (***************************************************************************)
 (* The core domain (DESIGN.md 8.2), decided on the reference side.         *)
@@ -152,7 +156,8 @@ CoreOp(doc, op, p, v) ==
 CorePair(doc, prefix, pair, root) ==
   LET key == pair[1]  val == pair[2] IN
   IF IsOp(key) THEN
-     IF root THEN val.t = "arr" /\ \A i \in 1..Len(val.a) : CoreQuery(doc, val.a[i])
+     IF root THEN IF key = "$jsonSchema" THEN val.t = "doc" /\ SchemaWF(val)      \* well-formed schemas of the modelled keyword subset
+                  ELSE val.t = "arr" /\ \A i \in 1..Len(val.a) : CoreQuery(doc, val.a[i])
      ELSE CoreOp(doc, key, prefix, val)
   ELSE LET p == prefix \o PathOf(key) IN
        IF val.t = "doc" /\ val.f # <<>> /\ IsOp(val.f[1][1])
